@@ -80,7 +80,7 @@ class Stack:
         self.return_type: StackReturnType | None = None
         if stack_pile:
             self.stack_pile = stack_pile
-            if len(stack_pile) == self.compile_options.stack_limit:
+            if len(stack_pile) >= self.compile_options.stack_limit:
                 raise StackOverflowError(
                     self,
                     f"Max stack count was exceeded. (Stack Limit: {self.compile_options.stack_limit})",
